@@ -18,10 +18,12 @@ def run(chk, args):
     mc_gym(chk, "SA4", N=4, gameset="SA", comps={"sac"}, reps={0}, gaps={"exploitability"}, budgets="BudgetsNone", max_resets=1, max_ops=3 if q else 5,
            invariants=["UndoRestores"], timeout=3000)
     validate_gym_traces(chk, [
-        {"kind": "solve", "ns": "3,4" if q else "3,4,5", "count": 16 if q else 96, "classes": "superadditive,superadditive_cached,sam_apx_1"},
+        {"kind": "solve", "ns": "3,4", "count": 16 if q else 96, "classes": "superadditive,superadditive_cached,sam_apx_1"},
         {"kind": "solve", "source": "family", "ns": "3,4", "count": 16 if q else 80, "families": FAMS,
          "classes": "superadditive_cached,sam_apx_1"},
     ])
+    if not q:     # n = 5: 25 actions probed per query, expensive to validate -- a smaller sample
+        validate_gym_traces(chk, [{"kind": "solve", "ns": "5", "count": 20, "classes": "superadditive,superadditive_cached,sam_apx_1"}], tag="gy5")
     # expected-greedy search (run/greedy.py) against the exhaustive optimum
     from common_search import validate_search
     validate_search(chk, "greedy", "3,4", 8 if q else 60, "1,2,4")
